@@ -38,6 +38,12 @@ FQ == [ r |-> {"registered"},
         rpdm |-> {"registered", "plotting", "ready", "mining"} ]
 
 KnownSet(k) == {w \in Spaces : Known(k, w)}
+V2(e) == "v2" \in DOMAIN e
+BookOK(e, k) ==
+  /\ \A w \in Spaces : IF k.st[w] = "gone" THEN w \notin DOMAIN e.idx /\ w \notin ToSet(e.inall)
+                       ELSE w \in DOMAIN e.idx /\ e.idx[w] = <<k.st[w]>> /\ w \in ToSet(e.inall)      \* exactly one state
+  /\ e.chanlen = Len(k.chan) /\ e.queuelen = BagCardinality(k.queue)
+  /\ \A w \in Spaces : e.files[w] = k.files[w]                                                \* C11: only Delete deletes
 ProjOK(e, k) ==
   /\ DOMAIN e.st = KnownSet(k)
   /\ \A w \in KnownSet(k) : e.st[w] = k.st[w]
@@ -45,10 +51,8 @@ ProjOK(e, k) ==
   /\ e.agree = TRUE
   /\ \A n \in DOMAIN FQ : ToSet(e.fq[n]) = {w \in KnownSet(k) : k.st[w] \in FQ[n]}          \* C09: queries and filters agree
   /\ ("offered" \in DOMAIN e => ToSet(e.offered) = {w \in KnownSet(k) : k.st[w] = "mining"})  \* C09: only mining spaces are offered
-  /\ \A w \in Spaces : IF k.st[w] = "gone" THEN w \notin DOMAIN e.idx /\ w \notin ToSet(e.inall)
-                                             ELSE w \in DOMAIN e.idx /\ e.idx[w] = <<k.st[w]>> /\ w \in ToSet(e.inall)  \* exactly one state
-  /\ e.chanlen = Len(k.chan) /\ e.queuelen = BagCardinality(k.queue)
-  /\ \A w \in Spaces : e.files[w] = k.files[w]                                                \* C11: only Delete deletes
+  \* the bookkeeping is visible only where a hook shows it (the capacity keeper; the chia keeper's traces carry v2)
+  /\ (IF V2(e) THEN TRUE ELSE BookOK(e, k))
   /\ e.running = k.run
 
 Pairs(r) == {<<x[1], x[2]>> : x \in ToSet(r)}
@@ -75,7 +79,7 @@ Step(e) ==
         /\ \/ K' = k2
            \/ /\ e.act \in {"Stop", "Remove", "Delete"} /\ k2.chan # K.chan
               /\ K' = KeepsChan(K, k2) /\ Flag("C09-withdraw-keeps-channel-request")
-  \/ e.a = "Start" /\ ~K.run /\ e.res = "ok" /\ e.gate = "start" /\ K' = StartK(K)
+  \/ e.a = "Start" /\ ~K.run /\ e.res = "ok" /\ (IF V2(e) THEN TRUE ELSE e.gate = "start") /\ K' = StartK(K)
   \/ /\ e.a = "StopKeeper" /\ K.run /\ K.plt.pc # "popped" /\ e.res = "ok"
      \* requests still in the channel are kept, or received and dropped with the queue (the plotter's select may
      \* take either branch): no property says which
